@@ -140,6 +140,7 @@ def main():
         k = (fn.split('.')[0], code.co_firstlineno)
         return key2fid.get(k)
 
+    modfiles = {v['file'] for v in table.values()}
     for m in spec['modules']:
         mod = __import__(m['name'])
         assert mod.__file__.endswith('.so'), mod.__file__
@@ -182,14 +183,16 @@ def main():
                     def tr(frame, event, arg, ev=ev):
                         k = fid_of(frame)
                         if k is None:
-                            return None
+                            # frames of the traced modules that are not in the table (e.g. __init__ of a helper class)
+                            # are accepted and ignored; everything else (the driver itself) is not traced
+                            return loc if base(frame.f_code.co_filename).split('.')[0] in modfiles else None
                         ev.append(('T', event, k, frame.f_lineno, count(), threading.get_ident()))
                         return loc
 
                     def tr_decline(frame, event, arg, ev=ev):
                         k = fid_of(frame)
                         if k is None:
-                            return None
+                            return loc if base(frame.f_code.co_filename).split('.')[0] in modfiles else None
                         if k % 2 == 1:
                             ev.append(('T', 'call-declined', k, frame.f_lineno, count(), threading.get_ident()))
                             return None
@@ -250,13 +253,18 @@ def main():
                                      'fkind': 'driver', 'base': base_res, 'observed': res})
                     else:
                         stats['transparent_results'] += 1
+                    broken = False
                     if tracer_lost:
-                        viol.append({'kind': 'trace-function-uninstalled-during-run', 'stream': obs, 'fid': DRIVER,
-                                     'template': 'driver', 'fkind': 'driver'})
-                    if [m_ for m_ in marks] != base_marks and res == base_res:
+                        # sys.settrace() was undone behind our back: the rest of the stream is truncated, judge nothing else
+                        broken = True
+                        declined_any = any(e[1] == 'call-declined' for e in ev)
+                        viol = [{'kind': 'trace-function-uninstalled-during-run', 'stream': obs, 'fid': DRIVER,
+                                 'template': 'after-declined-local-trace' if declined_any else 'no-frame-declined',
+                                 'fkind': 'driver', 'base': base_res, 'observed': res}]
+                    if not broken and [m_ for m_ in marks] != base_marks and res == base_res:
                         viol.append({'kind': 'observed-run-changes-execution', 'stream': obs, 'fid': DRIVER, 'template': 'driver',
                                      'fkind': 'driver', 'base_markers': len(base_marks), 'markers': len(marks)})
-                    if obs != 'cprofile':
+                    if obs != 'cprofile' and not broken:
                         autos = {}
                         if obs in ('profile', 'both', 'thread'):
                             autos['P'] = Automaton(table, site_owner, traced_prof, 'profile')
